@@ -121,6 +121,26 @@ def concrete_search(qn, c: S.Contract, pid, rng, budget, want=None, collect_path
                 v = conc.Violation("engine-mismatch", "interp-vs-real", f"interp {res} real {rres}")
                 v.fn, v.props = qn, None
                 return n, v, saved, mism
+    # witness coverage: a few more executions with every assumed loop invariant evaluated concretely at every loop head
+    # (an invariant that fails on a real execution would make the proofs that assume it worthless)
+    for _ in range(12):
+        if time.time() > t_end + 10:
+            break
+        inp = c.gen(rng)
+        if inp is None:
+            continue
+        saved = copy_inputs(inp)
+        it = conc.Interp(collect=False, check_inv=True)
+        it._view_wr = {}
+        try:
+            it.run(qn, inp, c)
+            n += 1
+        except conc.Violation as v:
+            if v.kind == "pre":
+                continue
+            return n, v, saved, mism
+        except conc.Unsupported:
+            break
     return n, None, None, mism
 
 
